@@ -24,6 +24,10 @@ type Ctx struct {
 	entryLk  map[*ssa.Function]map[string]locks.Mode
 	accesses []fieldAccess
 	guarded  map[string]string
+
+	ringInvOK      bool
+	ringMin        int64
+	ringTrustNoted bool
 }
 
 // Locks returns engine L's result (computed once).
